@@ -55,31 +55,23 @@ def check(ctx, report):
 
 # ---- R3 / R4 ----------------------------------------------------------------------------------------------------
 
-class NotEvaluable(Exception):
-    pass
+from ..symeval import NotEvaluable      # noqa: E402  (one exception class for both evaluators)
 
 
 def ev(v, L, alt_cond):
-    """evaluate a Sym tree of the padding arithmetic with len(payload) := L"""
-    if isinstance(v, bool):
-        return v
-    if isinstance(v, int):
-        return v
-    if isinstance(v, Sym):
-        a = v.args
-        if v.op == 'len':
+    """evaluate a Sym tree of the padding arithmetic with len(payload) := L (sa.symeval; a phi without a recorded branch
+    condition is resolved through the condition of the function's only branch)"""
+    from ..symeval import evaluate
+
+    def leaf(x):
+        if isinstance(x, Sym) and x.op in ('len', 'clen', 'composed_length'):
             return L
-        if v.op in ('add', 'sub', 'mul', 'mod', 'floordiv'):
-            x, y = ev(a[0], L, alt_cond), ev(a[1], L, alt_cond)
-            return {'add': x + y, 'sub': x - y, 'mul': x * y, 'mod': x % y if y else 0, 'floordiv': x // y if y else 0}[v.op]
-        if v.op == 'cmp':
-            x, y = ev(a[1], L, alt_cond), ev(a[2], L, alt_cond)
-            return {'<': x < y, '<=': x <= y, '>': x > y, '>=': x >= y, '==': x == y, '!=': x != y}[a[0]]
-        if v.op == 'phi' and len(a) == 2 and alt_cond is not None:
-            return ev(a[0], L, alt_cond) if ev(alt_cond, L, None) else ev(a[1], L, alt_cond)
-        if v.op == 'range' and len(a) == 1:
-            return ev(a[0], L, alt_cond)
-    raise NotEvaluable(show(v))
+        if isinstance(x, Sym) and x.op == 'range' and len(x.args) == 1:
+            return evaluate(x.args[0], leaf)
+        if isinstance(x, Sym) and x.op == 'phi' and len(x.args) == 2 and alt_cond is not None:
+            return evaluate(x.args[0], leaf) if evaluate(alt_cond, leaf) else evaluate(x.args[1], leaf)
+        raise NotEvaluable(show(x))
+    return evaluate(v, leaf)
 
 
 def padding(ctx, report):
@@ -124,13 +116,33 @@ def padding(ctx, report):
         report.add('C07.R3', cons + '@shape', 'padding no longer depends on the payload length modulo 8: the residue argument does not apply')
     # R4
     report.count('C07.R4', 2)
-    if len(loops) != 1 or not (isinstance(loops[0].iterable, Sym) and loops[0].iterable.op == 'range' and len(loops[0].iterable.args) == 1 and loops[0].iterable.args[0] == pad_v):
+    # how many padding bytes are written: a loop over range(n) emitting one byte per pass, or one raw write of n * b'\x00';
+    # n has to equal the padding_length field for every payload length (compared by evaluation, not by spelling)
+    emitted = []
+    for lp in loops:
+        if isinstance(lp.iterable, Sym) and lp.iterable.op == 'range' and len(lp.iterable.args) == 1:
+            body = [n for n in walk(lp.body) if isinstance(n, Op)]
+            if len(body) == 1 and body[0].args.get('size') == 1:
+                emitted.append(lp.iterable.args[0])
+            else:
+                report.add('C07.R4', cons + '@padding-bytes', 'each padding iteration must emit exactly one byte')
+    for o in ops:
+        v = o.args.get('value')
+        if o.prim == 'compose_raw' and isinstance(v, Sym) and v.op == 'mul' and len(v.args) == 2:
+            a, b = v.args
+            if isinstance(b, bytes) and len(b) == 1:
+                emitted.append(a)
+            elif isinstance(a, bytes) and len(a) == 1:
+                emitted.append(b)
+
+    def same_count(x):
+        try:
+            return all(ev(x, L, alt_cond) == ev(pad_v, L, alt_cond) for L in list(range(0, 24)) + [255, 256, 35000, 35007])
+        except NotEvaluable:
+            return False
+    if not any(same_count(x) for x in emitted):
         report.add('C07.R4', cons + '@padding-bytes', 'the number of padding bytes emitted (%s) is not the padding_length written (%s)' % (
-            show(loops[0].iterable) if loops else 'none', show(pad_v)))
-    else:
-        body = [n for n in walk(loops[0].body) if isinstance(n, Op)]
-        if len(body) != 1 or body[0].args.get('size') != 1:
-            report.add('C07.R4', cons + '@padding-bytes', 'each padding iteration must emit exactly one byte')
+            ', '.join(show(x) for x in emitted) if emitted else 'none', show(pad_v)))
     pres = ctx.canon.layout(c, 'parse').result
     raws = [n for n in walk(pres.block) if isinstance(n, Op) and n.prim == 'parse_raw']
     ok = any(isinstance(o.args.get('size'), FieldV) and o.args['size'].key == 'padding_length' for o in raws)
